@@ -1381,6 +1381,13 @@ impl Writer {
         .map(RtpsReaderProxy::acked_up_to_before)
         .min()
         .unwrap_or_else(|| self.history_buffer.last_change_sequence_number().plus_1());
+      // A reader cannot have acknowledged more than we have written. If one claims
+      // so, do not let that push the first sample to keep beyond our last one,
+      // because then it is not found in the history and nothing gets removed.
+      let acked_by_all_readers = min(
+        acked_by_all_readers,
+        self.history_buffer.last_change_sequence_number().plus_1(),
+      );
       // If all readers have acked all up to before 5, and depth is 5, we need
       // to keep samples 0..4, i.e. from acked_up_to_before - depth .
       max(
